@@ -1,6 +1,104 @@
-(* Props_C10.v — TEMPORARY first version (STFU-8 layer only); completed below. *)
-From FV Require Import Base TextModel TextProofs.
+(* Props_C10.v — property C10: reports round-trip losslessly; a report cut inside a group is rejected.
+   Statements only; every proof is `exact <lemma of TextProofs*>` (witnesses by vm_compute).
+   Model: coq/TextModel.v part 2 (report.rs write_as_text, TextReportReader::read_header,
+   TextReportIterator, open_report detection; path.rs escaped strings; stfu8).
+   Parameters of the model that are NOT modelled, with the hypotheses the theorems need (they are
+   premises of the statements, never axioms; the check tests them on every generated case):
+     human   : ByteSize Display            — non-empty printable ASCII without '*', ')' and ':'
+     fmt_ts / parse_ts : chrono format / parse_from_str with TIMESTAMP_FMT — printable ASCII and
+               parse (trim (format t)) = t for the timestamps called ts_ok (millisecond precision)
+   Well-formed data (definitions in TextProofs5.v):
+     path_ok p    bytes < 256, NUL-free, absolute, in std::path normal form (path_norm p = p)
+     group_ok g   non-empty hash bytes, len and file count fit u64, every path path_ok
+     header_ok h  version d+.d+.d+, ts_ok timestamp, arguments non-empty byte strings, base dir
+                  path_ok, stats present with u64 fields
+   K4 g k        the cut k lies strictly inside the LAST path line of the text of group g:
+                  length (write_group g) - length (write_path_line (last (g_files g) [])) < k *)
+From FV Require Import Base TextModel TextProofs TextProofs2 TextProofs3 TextProofs4 TextProofs5 TextProofs6.
 Open Scope N_scope.
-Theorem C10_stfu8 : forall b : list N, Forall (fun x => x < 256) b -> stfu8_decode (stfu8_encode b) = Some b.
+
+(* STFU-8: decode_u8 (encode_u8 b) = Ok b for every byte string *)
+Theorem C10_stfu8 : forall b : list N,
+  Forall (fun x => x < 256) b -> stfu8_decode (stfu8_encode b) = Some b.
 Proof. exact stfu8_roundtrip. Qed.
 Print Assumptions C10_stfu8.
+
+(* JSON format, STFU-8 layer (serde_json assumed to transport strings unchanged): paths and
+   arguments are written as escaped strings and decoded back to the same value *)
+Theorem C10_json_roundtrip : forall p : list N,
+  path_ok p -> path_from_escaped (path_to_escaped p) = POk p.
+Proof. exact json_path_roundtrip. Qed.
+Print Assumptions C10_json_roundtrip.
+
+(* Text format: reading what write_as_text wrote gives back exactly the header and the groups,
+   and a clean end of the report. *)
+Theorem C10_text_roundtrip :
+  forall (human : N -> list N) (TS : Type) (fmt_ts : TS -> list N) (parse_ts : list N -> option TS)
+         (ts_ok : TS -> Prop),
+  (forall n, human n <> [] /\
+             Forall (fun b => 32 <= b < 127 /\ b <> 42 /\ b <> 41 /\ b <> 58) (human n)) ->
+  (forall t, ts_ok t -> Forall (fun b => 32 <= b < 127) (fmt_ts t) /\
+                        parse_ts (str_trim (fmt_ts t)) = Some t) ->
+  forall (h : header TS) (gs : list group),
+  header_ok TS ts_ok h -> Forall group_ok gs ->
+  read_report TS parse_ts (write_text human TS fmt_ts h gs) = RepText TS h gs GEnd.
+Proof. exact text_roundtrip. Qed.
+Print Assumptions C10_text_roundtrip.
+
+(* Truncation: a report cut strictly inside the text of a group (at least one byte of the group
+   present, at least one missing), other than inside the group's last path line (K4), is read as:
+   the header, exactly the complete groups before the cut, then an error. *)
+Theorem C10_truncation_except_K4 :
+  forall (human : N -> list N) (TS : Type) (fmt_ts : TS -> list N) (parse_ts : list N -> option TS)
+         (ts_ok : TS -> Prop),
+  (forall n, human n <> [] /\
+             Forall (fun b => 32 <= b < 127 /\ b <> 42 /\ b <> 41 /\ b <> 58) (human n)) ->
+  (forall t, ts_ok t -> Forall (fun b => 32 <= b < 127) (fmt_ts t) /\
+                        parse_ts (str_trim (fmt_ts t)) = Some t) ->
+  forall (h : header TS) (gs : list group) (g : group) (k : nat),
+  header_ok TS ts_ok h -> Forall group_ok gs -> group_ok g -> g_files g <> [] ->
+  (0 < k < length (write_group human g))%nat -> ~ K4 human g k ->
+  read_report TS parse_ts
+    (write_header human TS fmt_ts h ++ flat_map (write_group human) gs ++ firstn k (write_group human g))
+  = RepText TS h gs GErr.
+Proof. exact truncation. Qed.
+Print Assumptions C10_truncation_except_K4.
+
+(* K4 (known finding, report.rs read_paths): a cut inside the last path line is accepted and the
+   shortened path is delivered as if it were complete.  Witness: group with the one path /ab,
+   cut before the final "b" and the line feed. *)
+Theorem C10_K4_witness :
+  exists (human : N -> list N) (TS : Type) (fmt_ts : TS -> list N) (parse_ts : list N -> option TS)
+         (ts_ok : TS -> Prop),
+  (forall n, human n <> [] /\
+             Forall (fun b => 32 <= b < 127 /\ b <> 42 /\ b <> 41 /\ b <> 58) (human n)) /\
+  (forall t, ts_ok t -> Forall (fun b => 32 <= b < 127) (fmt_ts t) /\
+                        parse_ts (str_trim (fmt_ts t)) = Some t) /\
+  exists (h : header TS) (g : group) (k : nat),
+    header_ok TS ts_ok h /\ group_ok g /\ g_files g <> [] /\
+    (0 < k < length (write_group human g))%nat /\ K4 human g k /\
+    read_report TS parse_ts (write_header human TS fmt_ts h ++ firstn k (write_group human g))
+    = RepText TS h [mkGroup (g_hash g) (g_len g) [[47; 97]]] GEnd.
+Proof. exact k4_witness. Qed.
+Print Assumptions C10_K4_witness.
+
+(* Non-vacuity: the hypotheses are satisfiable and the theorems apply to a non-trivial report
+   (paths with trailing space, line feed, invalid UTF-8; an argument that needs $'...' quoting). *)
+Definition ex_header : header unit :=
+  mkHeader unit [48; 46; 51; 53; 46; 48] tt [[102; 99]; [97; 39; 10; 255]] [47; 119; 32]
+           (Some (mkStats 2 3 82 1 41 0 0)).
+Definition ex_groups : list group :=
+  [mkGroup [73; 22; 171] 41 [[47; 97; 32]; [47; 98; 10; 99; 47; 255]]; mkGroup [1] 0 [[47; 46; 46; 47; 197; 188]]].
+Example C10_ex_roundtrip :
+  read_report unit parse_demo (write_text human_demo unit fmt_demo ex_header ex_groups)
+  = RepText unit ex_header ex_groups GEnd.
+Proof. vm_compute. reflexivity. Qed.
+Example C10_ex_cut_in_first_group :
+  read_report unit parse_demo
+    (write_header human_demo unit fmt_demo ex_header ++ firstn 30%nat (write_group human_demo (hd k4_group ex_groups)))
+  = RepText unit ex_header [] GErr.
+Proof. vm_compute. reflexivity. Qed.
+Example C10_ex_path_norm :
+  path_norm [47; 97; 47; 47; 98; 47; 46; 47; 99; 47] = [47; 97; 47; 98; 47; 99] /\
+  path_norm [47; 97; 32] = [47; 97; 32] /\ path_from_escaped [47; 92; 120; 48; 48] = PPanic.
+Proof. vm_compute. repeat split. Qed.
